@@ -116,6 +116,44 @@ empty @is_you(int n, int k) {
 '''
 
 
+def leak_program():
+    """blocks that own stack arrays and *may* leave early (conditional break / return / defeat) but normally fall
+    through, inside loops with many iterations: if a fall-through forgets to release, ap creeps into the frame"""
+    return UTIL + r'''
+int sink = 0;
+empty !never(int k) { !truth_is_defeat(k == 12345); }
+int work(int n, int k) {
+    int acc = 0;
+    for (int i = 0; i < n; i += 1) {
+        {
+            int[] t = [i, i + 1, i + 2];
+            if (i == k) { break; }
+            acc += t[2];
+        }
+        if (i % 2 == 0) {
+            byte u[3];
+            u[0] = 'u';
+            if (i == k + 100) { return acc; }
+            acc += u[0];
+        }
+    }
+    return acc;
+}
+empty @is_you(int n, int k) {
+    writeln(work(n, k));
+    int total = 0;
+    for (int j = 0; j < n; j += 1) {
+        try {
+            bool[] f = [j > 1, true, false];
+            !never(j);
+            if (f[1]) { total += j; }
+        } stop { write('s'); }
+    }
+    writeln(total);
+}
+'''
+
+
 def recursion_program():
     return UTIL + r'''
 int rec(int n, int[] acc) {
@@ -198,6 +236,8 @@ def cases(seed, count):
             out.append(('literal-temps', literal_temps(), [str(n), str(k)]))
     for k in range(0, 16):
         out.append(('const-index', const_index_program(), [str(k % 3), str(k)]))
+    for n, k in ((1, 99), (6, 99), (40, 99), (40, 7), (12, 3)):
+        out.append(('leak', leak_program(), [str(n), str(k)]))
     for n in (0, 7, -1, 9999, -32768, 32767, 12345):
         out.append(('stdlib', stdlib_program(), [str(n), str(r.choice([0, 7, 8, 19]))]))
     for n in (0, 3, 8, 22):
